@@ -180,7 +180,7 @@ class ExplicitArgumentArrayShapeTransformation(Transformation):
             new_args = tuple(d for d in dim_vars if d not in callee.arguments)
             new_args = tuple(d for d in new_args if d.type.dtype == BasicType.INTEGER)
             new_args = tuple(d for d in new_args if d not in imported_symbols)
-            new_args = tuple(d.clone(scope=routine, type=d.type.clone(intent='IN')) for d in new_args)
+            new_args = tuple(d.clone(scope=callee, type=d.type.clone(intent='IN')) for d in new_args)
             callee.arguments += new_args
 
             # Map all local dimension args to unknown callee dimension args
